@@ -107,24 +107,30 @@ SORTED_LEN = make_sorted("len", elements=False, order=False)
 SORTED_ORDER = make_sorted("order", elements=False, order=True)
 SORTED_ELEMS = make_sorted("elems", elements=True, order=False)
 
-# ---- _getAnchor by name ---------------------------------------------------------------------------------------------------------------
+# ---- _getAnchor (static font, writer without a `quantization` option) ---------------------------------------------------------------
 _FG = "self.context.font.glyphs"
 _A = f"{_FG}[glyphName].anchors"
-contract(
-    "ufo2ft.featureWriters.baseFeatureWriter:BaseFeatureWriter._getAnchor",
-    name="c18_DW",  # (a variant named after the receiver class is what `self._getAnchor(...)` resolves to for a c18_DW receiver)
+GETANCHOR = dict(
     props=["C18"],
-    params={"self": Ref("c18_DW"), "glyphName": STR, "anchorName": STR, "anchor": Const(None)},
     returns=Opt(Tuple(REAL, REAL)),
     requires=["not self.context.isVariable"],  # plain UFOs (the variable branch is not modelled)
     ensures={
-        "none-iff-no-such-anchor": f"iff(result is None, glyphName not in {_FG} or not any({_A}[b].name == anchorName for b in range(len({_A}))))",
-        # the coordinates of AN anchor of that name of the FONT's glyph, not rounded (anchor names are unique within a glyph by UFO convention;
-        # with duplicates the code reads the first one, which this clause does not pin down: the filtered comprehension is order-agnostic in the logic)
-        "coordinates-of-that-anchor": f"implies(result is not None, any({_A}[b].name == anchorName and result[0] == {_A}[b].x and result[1] == {_A}[b].y for b in range(len({_A}))))",
+        # called with the anchor object itself (what the writers do for the glyph they are exporting): that anchor's own coordinates, not rounded
+        "own-coordinates-of-a-given-anchor": "implies(anchor is not None, result is not None and result[0] == anchor.x and result[1] == anchor.y)",
+        # called by name only: looked up in the context's FONT
+        "none-iff-no-such-anchor": f"implies(anchor is None, iff(result is None, glyphName not in {_FG} or not any({_A}[b].name == anchorName for b in range(len({_A})))))",
+        # (anchor names are unique within a glyph by UFO convention; with duplicates the code reads the first one, which this clause does not pin down:
+        # the filtered comprehension is order-agnostic in the logic)
+        "coordinates-of-that-anchor": f"implies(anchor is None and result is not None, any({_A}[b].name == anchorName and result[0] == {_A}[b].x and result[1] == {_A}[b].y for b in range(len({_A}))))",
     },
     canaries={"always-none": "result is None", "origin": "result is None or result[0] == 0"},
     locals={"anchors": List(Ref("c18_UAnchor"))},
+)
+contract(
+    "ufo2ft.featureWriters.baseFeatureWriter:BaseFeatureWriter._getAnchor",
+    name="c18_DW",  # (a variant named after the receiver class is what `self._getAnchor(...)` resolves to for a c18_DW receiver)
+    params={"self": Ref("c18_DW"), "glyphName": STR, "anchorName": STR, "anchor": Opt(Ref("c18_UAnchor"))},
+    **GETANCHOR,
 )
 
 # ---- _sortedGlyphClass ----------------------------------------------------------------------------------------------------------------
@@ -149,16 +155,9 @@ contract(
 
 # ---- _getLigatureCarets -----------------------------------------------------------------------------------------------------------------
 # One contract variant per clause group (each carries only the invariants its own postcondition needs; see contracts/c06liga.py).
-#
-# Precondition CONSISTENT: the exported glyph set is derived from the context's font glyph by glyph and the glyph-set filters keep the
-# anchors' names and order: every exported glyph is a glyph of the font with the same anchor names at the same positions.  (Without it
-# `self._getAnchor(glyphName, anchor.name)` may return None and the subscript raises TypeError: the code relies on it.)  The COORDINATES may
-# differ: _getAnchor reads them from the FONT's glyph, not from the exported glyph (see Findings in notes/C18.md).
-_FGL = "self.context.font.glyphs"
+# Since /repo 018bc33 the function passes `anchor=anchor`: every caret_ / vcaret_ anchor of the EXPORTED glyph contributes its OWN coordinate
+# (before, the coordinate was looked up by name in the context's font: finding F-C18-b, notes/C18.md).
 _GA = _OGS + "[{g}].anchors"
-_FA = _FGL + "[{g}].anchors"
-CONSISTENT = (f"all(g in {_FGL} and len({_FA.format(g='g')}) == len({_GA.format(g='g')})"
-              f" and all({_FA.format(g='g')}[b].name == {_GA.format(g='g')}[b].name for b in range(len({_GA.format(g='g')}))) for g in {_OGS})")
 
 
 def _is_c(a):
@@ -178,8 +177,9 @@ GLC = "ufo2ft.featureWriters.gdefFeatureWriter:GdefFeatureWriter._getLigatureCar
 _K = f"list({_OGS})"
 GLC_COMMON = dict(
     props=["C18"], params={"self": Ref("c18_DW")}, returns=Dict(STR, List(INT)),
-    requires=["not self.context.isVariable", CONSISTENT],
+    requires=["not self.context.isVariable"],
     merge_branches=False,
+    dict_key_positions=False,  # (no clause goes from `k in d` to a position of the key list: without the extra quantified fact the steps are fast)
 )
 GLC_LOCALS = {"carets": Dict(STR, List(INT)), "glyphCarets": Set(REAL)}
 OUTER = "for (glyphName, glyph) in self.context.orderedGlyphSet.items()"
@@ -233,106 +233,81 @@ def c18_round(v):
     return otRound(v)
 
 
-# Precondition UNIQUE (UFO convention; with duplicate names `_getAnchor` reads the first anchor of the name for every one of them — an observation
-# recorded in notes/C18.md, outside these two clause groups): the named anchors of a font glyph have pairwise different names.
-UNIQUE = (f"all(all(all(implies(b1 < b2 and {_FA.format(g='g')}[b1].name is not None, {_FA.format(g='g')}[b1].name != {_FA.format(g='g')}[b2].name)"
-          f" for b2 in range(len({_FA.format(g='g')}))) for b1 in range(len({_FA.format(g='g')}))) for g in {_FGL})")
 ASSIGN = "carets[glyphName] = [otRound(c) for c in sorted(glyphCarets)]"
-ADDX = "glyphCarets.add(self._getAnchor(glyphName, anchor.name)[0])"
-ADDY = "glyphCarets.add(self._getAnchor(glyphName, anchor.name)[1])"
-WL = Dict(STR, List(REAL))  # ghost: glyph -> the sorted, NOT yet rounded coordinates its caret list was made from
-_FAJ = _FGL + "[glyphName].anchors"
-_ROUNDED = "all(g in wl and len(carets[g]) == len(wl[g]) and all(carets[g][k] == c18_round(wl[g][k]) for k in range(len(wl[g]))) for g in carets)"
 _FRAME = "all(g in carets and (g == glyphName or carets[g] == c0[g]) for g in c0) and all(g in c0 or g == glyphName for g in carets)"
 _NEW = "len(carets[glyphName]) == len(sorted(glyphCarets)) and all(carets[glyphName][k] == c18_round(sorted(glyphCarets)[k]) for k in range(len(carets[glyphName])))"
-GLC_W = dict(
-    locals={**GLC_LOCALS, "c0": Dict(STR, List(INT)), "wl": WL},
-    ghost_vars={"c0": (Dict(STR, List(INT)), "{}"), "wl": (WL, "{}")},
-    ghost={"glyphCarets = set()": ["c0 = {**carets}"], ASSIGN: ["wl = {**wl, glyphName: sorted(glyphCarets)}"]},
-)
-
-
 GLC_C0 = dict(locals={**GLC_LOCALS, "c0": Dict(STR, List(INT))}, ghost_vars={"c0": (Dict(STR, List(INT)), "{}")}, ghost={"glyphCarets = set()": ["c0 = {**carets}"]})
 
 
-def _cv(A, FA, b):
-    """the coordinate a caret anchor contributes: x of the font anchor at that position for caret_, y for vcaret_"""
-    return f"({FA}[{b}].x if {_is_c(A + '[' + b + ']')} else {FA}[{b}].y)"
+def _cv(A, b):
+    """the coordinate a caret anchor contributes: its own x for caret_, its own y for vcaret_"""
+    return f"({A}[{b}].x if {_is_c(A + '[' + b + ']')} else {A}[{b}].y)"
 
 
-def _src(A, FA, v, bound=None):
+def _src(A, v, bound=None):
     """v is the coordinate contributed by some caret_ / vcaret_ anchor of the exported glyph"""
-    return f"any(({_is_c(A + '[b]')} or {_is_v(A + '[b]')}) and {_cv(A, FA, 'b')} == {v} for b in range({bound or 'len(' + A + ')'}))"
+    return f"any(({_is_c(A + '[b]')} or {_is_v(A + '[b]')}) and {_cv(A, 'b')} == {v} for b in range({bound or 'len(' + A + ')'}))"
 
 
-def _rsrc(A, FA, v):
-    return f"any(({_is_c(A + '[b]')} or {_is_v(A + '[b]')}) and c18_round({_cv(A, FA, 'b')}) == {v} for b in range(len({A})))"
+def _rsrc(A, v):
+    return f"any(({_is_c(A + '[b]')} or {_is_v(A + '[b]')}) and c18_round({_cv(A, 'b')}) == {v} for b in range(len({A})))"
 
 
 contract(
     GLC,
     name="sound",
-    props=["C18"], params={"self": Ref("c18_DW")}, returns=Dict(STR, List(INT)),
-    requires=["not self.context.isVariable", CONSISTENT, UNIQUE],
-    merge_branches=False,
+    **GLC_COMMON,
     globals={"sorted": SORTED_ELEMS},
     ensures={
-        # every listed position is the rounded x of the (font's) anchor at the position of a caret_ anchor of the glyph, or the rounded y for a vcaret_ anchor
-        "positions-are-rounded-anchor-coordinates": f"all(g in {_OGS} and g in {_FGL} and all(" + _rsrc(_GA.format(g="g"), _FA.format(g="g"), "result[g][k]") + " for k in range(len(result[g]))) for g in result)",
+        # every listed position is the rounded x of a caret_ anchor of the exported glyph, or the rounded y of a vcaret_ anchor: the anchor's OWN coordinate
+        "positions-are-rounded-anchor-coordinates": f"all(g in {_OGS} and all(" + _rsrc(_GA.format(g="g"), "result[g][k]") + " for k in range(len(result[g]))) for g in result)",
     },
     canaries={"empty": "len(result) == 0"},
     **GLC_C0,
     hints={
-        ADDX: [f"{_FAJ}[j].x in glyphCarets"],
-        ADDY: [f"{_FAJ}[j].y in glyphCarets"],
         ASSIGN: [_NEW, "all(sorted(glyphCarets)[k] in glyphCarets for k in range(len(sorted(glyphCarets))))",
-                 "all(" + _src(_GA.format(g="glyphName"), _FAJ, "sorted(glyphCarets)[k]") + " for k in range(len(sorted(glyphCarets))))",
-                 "all(" + _rsrc(_GA.format(g="glyphName"), _FAJ, "carets[glyphName][k]") + " for k in range(len(carets[glyphName])))", _FRAME],
+                 "all(" + _src(_GA.format(g="glyphName"), "sorted(glyphCarets)[k]") + " for k in range(len(sorted(glyphCarets))))",
+                 "all(" + _rsrc(_GA.format(g="glyphName"), "carets[glyphName][k]") + " for k in range(len(carets[glyphName])))", _FRAME],
     },
     loops={
         OUTER: Loop(index="i", invariants={
-            "positions": f"all(g in {_OGS} and g in {_FGL} and all(" + _rsrc(_GA.format(g="g"), _FA.format(g="g"), "carets[g][k]") + " for k in range(len(carets[g]))) for g in carets)",
+            "positions": f"all(g in {_OGS} and all(" + _rsrc(_GA.format(g="g"), "carets[g][k]") + " for k in range(len(carets[g]))) for g in carets)",
         }),
-        INNER: Loop(index="j", invariants={"from-anchors": "all(" + _src("glyph.anchors", _FAJ, "c", "j") + " for c in glyphCarets)"}),
+        INNER: Loop(index="j", invariants={"from-anchors": "all(" + _src("glyph.anchors", "c", "j") + " for c in glyphCarets)"}),
     },
 )
 
+
 def _listed(d, g):
-    A, FA = _GA.format(g=g), _FA.format(g=g)
-    return ("all(implies(" + _is_c(A + "[b]") + ", any(" + d + "[" + g + "][k] == c18_round(" + FA + "[b].x) for k in range(len(" + d + "[" + g + "]))))"
-            " and implies(not " + _is_c(A + "[b]") + " and " + _is_v(A + "[b]") + ", any(" + d + "[" + g + "][k] == c18_round(" + FA + "[b].y) for k in range(len(" + d + "[" + g + "]))))"
+    A = _GA.format(g=g)
+    return ("all(implies(" + _is_c(A + "[b]") + " or " + _is_v(A + "[b]") + ", any(" + d + "[" + g + "][k] == c18_round(" + _cv(A, "b") + ") for k in range(len(" + d + "[" + g + "]))))"
             " for b in range(len(" + A + ")))")
 
 
 contract(
     GLC,
     name="complete",
-    props=["C18"], params={"self": Ref("c18_DW")}, returns=Dict(STR, List(INT)),
-    requires=["not self.context.isVariable", CONSISTENT, UNIQUE],
-    merge_branches=False,
+    **GLC_COMMON,
     globals={"sorted": SORTED_ELEMS},
     ensures={
         # the rounded coordinate of every caret_ / vcaret_ anchor of a listed glyph is one of its positions
-        "every-caret-anchor-is-listed": f"all(g in {_OGS} and g in {_FGL} and " + _listed("result", "g") + " for g in result)",
+        "every-caret-anchor-is-listed": f"all(g in {_OGS} and " + _listed("result", "g") + " for g in result)",
     },
     canaries={"empty": "len(result) == 0"},
     **GLC_C0,
     hints={
-        ADDX: [f"{_FAJ}[j].x in glyphCarets"],
-        ADDY: [f"{_FAJ}[j].y in glyphCarets"],
         ASSIGN: [_NEW,
                  # every collected value is at some position of the sorted list ...
-                 "all(implies(" + _is_c(_GA.format(g="glyphName") + "[b]") + f", any(sorted(glyphCarets)[k] == {_FAJ}[b].x for k in range(len(sorted(glyphCarets)))))"
-                 " and implies(not " + _is_c(_GA.format(g="glyphName") + "[b]") + " and " + _is_v(_GA.format(g="glyphName") + "[b]") + f", any(sorted(glyphCarets)[k] == {_FAJ}[b].y for k in range(len(sorted(glyphCarets)))))"
-                 " for b in range(len(" + _GA.format(g="glyphName") + ")))",
+                 "all(implies(" + _is_c(_GA.format(g="glyphName") + "[b]") + " or " + _is_v(_GA.format(g="glyphName") + "[b]")
+                 + ", any(sorted(glyphCarets)[k] == " + _cv(_GA.format(g="glyphName"), "b") + " for k in range(len(sorted(glyphCarets))))) for b in range(len(" + _GA.format(g="glyphName") + ")))",
                  # ... hence its rounding at the same position of the new entry
                  _listed("carets", "glyphName"), _FRAME,
-                 f"all(implies(g != glyphName, g in {_OGS} and g in {_FGL} and " + _listed("carets", "g") + ") for g in carets)"],
+                 f"all(implies(g != glyphName, g in {_OGS} and " + _listed("carets", "g") + ") for g in carets)"],
     },
     loops={
-        OUTER: Loop(index="i", invariants={"listed": f"all(g in {_OGS} and g in {_FGL} and " + _listed("carets", "g") + " for g in carets)"}),
+        OUTER: Loop(index="i", invariants={"listed": f"all(g in {_OGS} and " + _listed("carets", "g") + " for g in carets)"}),
         INNER: Loop(index="j", invariants={
-            "all-anchors": "all(implies(" + _is_c("glyph.anchors[b]") + f", {_FAJ}[b].x in glyphCarets) and implies(not " + _is_c("glyph.anchors[b]") + " and " + _is_v("glyph.anchors[b]") + f", {_FAJ}[b].y in glyphCarets) for b in range(j))",
+            "all-anchors": "all(implies(" + _is_c("glyph.anchors[b]") + " or " + _is_v("glyph.anchors[b]") + ", " + _cv("glyph.anchors", "b") + " in glyphCarets) for b in range(j))",
         }),
     },
 )
@@ -349,8 +324,10 @@ def gdef_cases(rng, n):
         glyphs = {}
         for nm in _GLYPH_NAMES:
             names = rng.sample(_ANCHOR_NAMES, rng.randint(0, 3))
-            if rng.random() < 0.1 and names:
-                names.append(names[0])  # a duplicate name: UNIQUE is false, the two clause groups that need it skip the case
+            if rng.random() < 0.15 and names:
+                names.append(names[0])  # a duplicate name (each anchor contributes its own coordinate)
+            if rng.random() < 0.15:
+                names.append(None)  # an unnamed anchor
             glyphs[nm] = {"anchors": [[an, rng.choice([100, 100.4, 100.5, 250, 99.6, 0, -20.5]), rng.choice([0, 300, 300.5, 10])] for an in names]}
         out.append({"glyphs": glyphs, "skip": rng.choice([[], ["skipped"], ["skipped", "b"]]),
                     "names": rng.sample(_GLYPH_NAMES + ["ghost"], rng.randint(0, 5)), "g": rng.choice(_GLYPH_NAMES + ["ghost"]), "a": rng.choice(_ANCHOR_NAMES)})
@@ -371,8 +348,25 @@ def gdef_writer(d):
     return w
 
 
+def getanchor_build(d, writer=None):
+    """`anchor` is None (look-up by name in the font) or, every other case, an anchor object of some exported glyph (the way the writers call it)"""
+    w = (writer or gdef_writer)(d)
+    anchor = None
+    if d.get("given"):
+        pool = [a for g in w.context.orderedGlyphSet.values() for a in g.anchors]
+        anchor = pool[d["given"] % len(pool)] if pool else None
+    return {"self": w, "glyphName": d["g"], "anchorName": d["a"], "anchor": anchor}
+
+
+def getanchor_cases(rng, n):
+    out = gdef_cases(rng, n)
+    for k, d in enumerate(out):
+        d["given"] = (k + 1) if k % 2 else 0
+    return out
+
+
 CONTRACTS["ufo2ft.featureWriters.baseFeatureWriter:BaseFeatureWriter._getAnchor#c18_DW"].runtime = Runtime(
-    gdef_cases, lambda d: {"self": gdef_writer(d), "glyphName": d["g"], "anchorName": d["a"]}, call=lambda fn, a: fn(a["self"], a["glyphName"], a["anchorName"]))
+    getanchor_cases, getanchor_build, call=lambda fn, a: fn(a["self"], a["glyphName"], a["anchorName"], anchor=a["anchor"]))
 CONTRACTS["ufo2ft.featureWriters.gdefFeatureWriter:GdefFeatureWriter._sortedGlyphClass"].runtime = Runtime(
     gdef_cases, lambda d: {"self": gdef_writer(d), "glyphNames": set(d["names"])}, call=lambda fn, a: fn(a["self"], a["glyphNames"]))
 for _v in ("keys", "sorted", "sound", "complete"):
